@@ -25,6 +25,11 @@ def claim(pid, technique, text, ref, note=""):
 def na(pid, reason):
     NA[pid] = reason
 
+def also(pid, technique, text):
+    """Appends rules added later to an existing claim."""
+    CHECKS[pid]["technique"] += " + " + technique
+    CHECKS[pid]["text"] += " " + text
+
 exec(open(os.path.join(os.path.dirname(__file__), "claims.py")).read())
 
 def main():
